@@ -15,5 +15,4 @@
 #[derive(Debug, Clone, PartialEq, Eq, Hash, PartialOrd, Ord)]
 pub struct Name { _x: u8 }
 pub struct Context { _x: u8 }
-pub struct Imports { _x: u8 }
 pub struct UnimplementedErr { _x: u8 }
